@@ -35,7 +35,7 @@ def nontrivial(impl):
 
 CHECK = ScenarioCheck(
     "C20", ["SimVerif.Props.C20"], "kernel", gen.generate, spec_c20, nontrivial,
-    "MTU tables per ordered address pair (asymmetric a>b != b>a, with/without `*`), values 1, 28, 100, 500, 1400, 1474, 1475, 1476, 3000; TCP: both sides of every connection write mtu-1, mtu, mtu+1, 2*mtu, 2*mtu+1, 3*mtu+2 bytes in 1..3 buffers, 1..3 connections per acceptor from client addresses with different MTUs, accepted sockets reused, ~25% of the accepts posted only 1 / 50 / 300 ms after the connect (the accepted socket is attached from the acceptor's queue), ~30% of the later connections made by the previous connector OBJECT closed and re-dialled to another server address (another path-MTU pair), NAT on ~30% of outgoing routes, droppers and small queues (retransmissions); UDP: 2..4 sockets with don't-fragment set / cleared / untouched / flipped half-way, datagrams of mtu-1, mtu, mtu+1, 2*mtu, 2*mtu+1, 1472..1476, 65535 bytes to bound and unbound endpoints; plus net_gen's tcp/udp/mixed families; non-trivial = at least 3 payload packets / successful send_to; distinct = distinct implementation trace",
+    "MTU tables per ordered address pair (asymmetric a>b != b>a, with/without `*`), values 1, 28, 100, 500, 1400, 1474, 1475, 1476, 3000; TCP: both sides of every connection write mtu-1, mtu, mtu+1, 2*mtu, 2*mtu+1, 3*mtu+2 bytes in 1..3 buffers, 1..3 connections per acceptor from client addresses with different MTUs, accepted sockets reused, ~25% of the accepts posted only 1 / 50 / 300 ms after the connect (the accepted socket is attached from the acceptor's queue), ~30% of the later connections made by the previous connector OBJECT closed and re-dialled to another server address (another path-MTU pair), NAT on ~30% of outgoing routes, droppers and small queues (retransmissions), a share of C05's delay family (segments held by a scripted delayer and overtaken by later ones, both directions, MSS 28..1475); UDP: 2..4 sockets with don't-fragment set / cleared / untouched / flipped half-way, datagrams of mtu-1, mtu, mtu+1, 2*mtu, 2*mtu+1, 1472..1476, 65535 bytes to bound and unbound endpoints; plus net_gen's tcp/udp/mixed families; non-trivial = at least 3 payload packets / successful send_to; distinct = distinct implementation trace",
     TRUSTED, ASSUME, spec_scn=True)
 CHECK.extra_cov = lambda results: dict(monitor_stats=dict(STATS))
 
